@@ -699,7 +699,7 @@ pub fn run(ctx: &Ctx) -> Report {
             for m in 0..4u64 {
                 for policy in [Serve::OnNotify, Serve::Late(2), Serve::Poll] {
                     let offered = (m & 1) << 28 | (m >> 1) << 29 | 1 << 32 | (drv.supported() & 0xffff_ffff & !(1 << 28 | 1 << 29));
-                    items.push(Item::Drv(crate::props::c08::HCase { drv, kind, offered, policy, legacy_raw_offer: false }));
+                    items.push(Item::Drv(crate::props::c08::HCase { drv, kind, offered, policy, legacy_raw_offer: false, refuse_features_ok: false }));
                 }
             }
         }
